@@ -40,6 +40,7 @@ func ProxyEntry(snap, name string) string {
 }
 
 var toxNameRe = regexp.MustCompile(`T\(([^|()]*)\|`)
+var toxStreamRe = regexp.MustCompile(`T\([^|()]*\|[^|()]*\|([^|()]*)\|`)
 
 func (e *Engine) wants(p string) bool {
 	return e.Props == "" || strings.Contains(","+e.Props+",", ","+p+",")
@@ -83,6 +84,12 @@ func (e *Engine) oracles(i int, fail failFn, method, path string, browser bool, 
 			if r.status != 403 || after != snap {
 				return fail(i, "oracle", "C05", "403, unchanged", fmt.Sprintf("%d", r.status),
 					"a request with a browser User-Agent was not refused with 403 without effect", "e4:C05:browser")
+			}
+		}
+		// every snapshot: a toxic's stream is one of the two documented ones (letter case aside)
+		for _, m := range toxStreamRe.FindAllStringSubmatch(after, -1) {
+			if st := strings.ToLower(m[1]); st != "upstream" && st != "downstream" {
+				return fail(i, "oracle", "C05", "upstream | downstream", m[1], "a toxic with stream "+strconv.Quote(m[1])+" is in the registry", "e4:C05:stream-domain")
 			}
 		}
 		// every snapshot: toxic names unique within a proxy
